@@ -574,7 +574,9 @@ def _mrq_parts(seed):
 
     st = mrq.create_mrq_state(E(), policy_hidden_nodes=[8], q_hidden_nodes=[8],
                               encoder_n_bins=9, encoder_zs_dim=6, encoder_za_dim=4,
-                              encoder_zsa_dim=6, encoder_hidden_nodes=[8], seed=seed)
+                              encoder_zsa_dim=6, encoder_hidden_nodes=[8],
+                              encoder_activation_in_last_layer=bool(seed % 2),
+                              seed=seed)
     return st
 
 
